@@ -189,6 +189,10 @@ mut("stack_operator_keeps_one_operand", ["C01"], "calAndSetStackSize/",
     [("compiler.go", "\t\t\tf[i] = f[prev] - int16(n.childCnt) + 1\n", "\t\t\tf[i] = f[prev] - int16(n.childCnt) + 1\n\t\t\tif n.childCnt > 8 {\n\t\t\t\tf[i]++\n\t\t\t}\n")], "operators with more than eight operands leave one extra slot")
 mut("opexec_params_copied_after_the_call", ["C12"], "calAndSetEventNode.wrapOpEvent.$1/post/params-private-copy",
     [("compiler.go", "\t\t\teventParams := make([]Value, len(params))\n\t\t\tcopy(eventParams, params)\n\n\t\t\tres, err = op(ctx, params)\n", "\t\t\tres, err = op(ctx, params)\n\t\t\teventParams := make([]Value, len(params))\n\t\t\tcopy(eventParams, params)\n")], "the event shows the arguments as the operator left them, not as it was called")
+mut("dump_takes_operand_slots_of_any_late_kind", ["C06"], "Dump.getChildIdxes/safety",
+    [("util.go", "\t\tif e.nodes[idx].getNodeType() == cond {\n\t\t\tres = []int16{", "\t\tif e.nodes[idx].getNodeType() >= cond {\n\t\t\tres = []int16{")], "Dump indexes four operand slots of event nodes as well")
+mut("split_lines_cuts_one_byte_late", ["C06"], "splitLinesOutsideStrings/safety",
+    [("util.go", "\t\t\t\tres = append(res, s[start:i])\n\t\t\t\tstart = i + 1", "\t\t\t\tres = append(res, s[start:i])\n\t\t\t\tstart = i + 2")], "the text after a final line break is sliced beyond its end")
 # ---- probes of mechanisms that only the bounded tier covers
 mut("reduce_nesting_merges_any_bool_operator", ["C02"], "bnd/",
     [("compiler.go", "\t\tif isAndOpNode(cn) == rootOpType {\n\t\t\tchildren = append(children, child.children...)", "\t\tif isAndOpNode(cn) == rootOpType || len(child.children) == 2 {\n\t\t\tchildren = append(children, child.children...)")], "a two-operand or inside an and (or vice versa) is flattened into its parent")
